@@ -21,6 +21,16 @@ def collect(ctx):
     if ctx.quick:
         # one seed-dependent third of the enumeration per quick run (all of it in thorough)
         vecs = [v for k, v in enumerate(vecs) if (k + ctx.seed) % 3 == 0]
+    # letter case must not change the order, under any measure (tn93's base frequencies are counted from the target as read):
+    # all targets, only the first, only the last in lower case
+    for k, v in enumerate(vecs):
+        m = (k // 3 + ctx.seed) % 4
+        if m == 1:
+            v["lowt"] = True
+        elif m == 2:
+            v["lowts"] = [0]
+        elif m == 3:
+            v["lowts"] = [len(v["targets"]) - 1]
     vecs += kernel.rand_vectors(ctx, "closest6", 400 if ctx.quick else 5000)
     return kernel.run_vectors(ctx, "closest", vecs)
 
